@@ -244,6 +244,7 @@ def producers(rep):
                             for i, e in enumerate(t.elts):
                                 if isinstance(e, ast.Name):
                                     env[e.id] = f"{val}[{i}]"
+                    if isinstance(st, (ast.Assign, ast.Return, ast.Expr)) and getattr(st, "value", None) is not None:
                         for c in ast.walk(st.value):
                             if isinstance(c, ast.Call) and call_name(c) == "transform" and c.args and isinstance(c.args[0], ast.Tuple):
                                 hit = [env.get(e.id, e.id) if isinstance(e, ast.Name) else _sym(e, env, known) for e in c.args[0].elts]
@@ -284,6 +285,7 @@ def producers(rep):
     ok = ok and bool(rg) and [norm(a) for a in rg[0].args[:3]] == [slot[(0,)], slot[(1,)], slot[(2,)]]
     rep.ob("O10.2", "SIB", tr, ok, rg[0] if rg else "_rule_grammar", "and hands them on in that order")
     # the ids of charge-changing atoms are computed on the SAME numbering that is written out
+    n_verdicts = 0
     for reindex in (True, False):
         known = {"reindex": reindex, "explicit_hydrogen": False}
         try:
@@ -304,16 +306,20 @@ def producers(rep):
                         for i, e in enumerate(t.elts):
                             if isinstance(e, ast.Name):
                                 env[e.id] = f"{val}[{i}]"
+                if isinstance(st, (ast.Assign, ast.Return, ast.Expr)) and getattr(st, "value", None) is not None:
                     for c in ast.walk(st.value):
                         if isinstance(c, ast.Call) and call_name(c) == "_rule_grammar" and len(c.args) >= 5:
-                            Ls, Rs = env.get(norm(c.args[0]), norm(c.args[0])), env.get(norm(c.args[1]), norm(c.args[1]))
-                            ids = env.get(norm(c.args[4]), norm(c.args[4]))
+                            val_ = lambda a_: env.get(a_.id, a_.id) if isinstance(a_, ast.Name) else _sym(a_, env, known)
+                            Ls, Rs = val_(c.args[0]), val_(c.args[1])
+                            ids = val_(c.args[4])
                             want = f"NXToGML._find_changed_nodes({_wrap(Ls)}, {_wrap(Rs)}, attributes)"
                             verdict = (ids.replace(" ", "") == want.replace(" ", ""), ids, want)
+            n_verdicts += verdict is not None
             if verdict is not None:
                 rep.ob("O10.2", "SIB", tr, verdict[0], f"reindex={reindex}: changed ids = {verdict[1][:90]}",
                        "the list of charge-changing atoms refers to the numbering of the graphs that are written (computed after any re-indexing)",
                        {"expected": verdict[2][:120]})
+    rep.need("SIB", n_verdicts, 2, "paths of NXToGML.transform that reach _rule_grammar (with and without re-indexing)")
     gr = rep.f(N2G, "NXToGML._rule_grammar")
     secs = [(norm(c.args[0]), const(c.args[1])) for c in walk_local(gr.node) if isinstance(c, ast.Call) and call_name(c) == "_convert_graph_to_gml"]
     gp = gr.params
